@@ -1,8 +1,10 @@
 package dir
 
 import (
+	iofs "io/fs"
 	"os"
 	"path/filepath"
+	"sort"
 	"strconv"
 	"time"
 
@@ -18,6 +20,12 @@ import (
 //verif:stub os.RemoveAll vRemoveAll
 //verif:stub os.Remove vRemove
 //verif:stub time.Now vNow
+//verif:stub os.ReadDir vReadDir
+//verif:stub os.Readlink vReadlink
+//verif:stub os.ReadFile vReadFile
+//verif:stub os.Stat vStat
+//verif:stub os.Lstat vLstat
+//verif:stub os.Mkdir vMkdir
 
 // ---- a model of a POSIX directory tree ---------------------------------------------------------------------------
 
@@ -139,6 +147,129 @@ func vRemove(name string) error {
 		}
 	}
 	delete(fs.nodes, name)
+	vInvariant()
+	return nil
+}
+
+// ---- read side of the model (no crash points: they do not change the tree) ----------------------------------------
+
+// resolve follows symbolic links (a bounded number of times)
+func vFollow(p string) (*vNode, string, bool) {
+	for i := 0; i < 4; i++ {
+		n, ok := fs.nodes[p]
+		if !ok {
+			return nil, p, false
+		}
+		if n.kind != 3 {
+			return n, p, true
+		}
+		p = n.target
+	}
+	return nil, p, false
+}
+
+type vInfo struct {
+	name string
+	kind int
+	size int64
+}
+
+func (i vInfo) Name() string { return i.name }
+func (i vInfo) Size() int64  { return i.size }
+func (i vInfo) Mode() iofs.FileMode {
+	switch i.kind {
+	case 1:
+		return iofs.ModeDir | 0o755
+	case 3:
+		return iofs.ModeSymlink | 0o777
+	}
+	return 0o644
+}
+func (i vInfo) ModTime() time.Time         { return time.Time{} }
+func (i vInfo) IsDir() bool                { return i.kind == 1 }
+func (i vInfo) Sys() any                   { return nil }
+func (i vInfo) Type() iofs.FileMode        { return i.Mode().Type() }
+func (i vInfo) Info() (iofs.FileInfo, error) { return i, nil }
+
+func vReadDir(name string) ([]os.DirEntry, error) {
+	n, dirPath, ok := vFollow(name)
+	if !ok {
+		return nil, os.ErrNotExist
+	}
+	if n.kind != 1 {
+		return nil, os.ErrInvalid
+	}
+	var names []string
+	for p := range fs.nodes {
+		if p != dirPath && filepath.Dir(p) == dirPath {
+			names = append(names, filepath.Base(p))
+		}
+	}
+	sort.Strings(names)
+	var out []os.DirEntry
+	for _, nm := range names {
+		c := fs.nodes[filepath.Join(dirPath, nm)]
+		out = append(out, vInfo{name: nm, kind: c.kind, size: int64(len(c.content))})
+	}
+	return out, nil
+}
+
+func vReadlink(name string) (string, error) {
+	n, ok := fs.nodes[name]
+	if !ok {
+		return "", os.ErrNotExist
+	}
+	if n.kind != 3 {
+		return "", os.ErrInvalid
+	}
+	return n.target, nil
+}
+
+func vReadFile(name string) ([]byte, error) {
+	dir, _, ok := vFollow(filepath.Dir(name))
+	if !ok || dir.kind != 1 {
+		return nil, os.ErrNotExist
+	}
+	_, dirPath, _ := vFollow(filepath.Dir(name))
+	n, _, ok := vFollow(filepath.Join(dirPath, filepath.Base(name)))
+	if !ok {
+		return nil, os.ErrNotExist
+	}
+	if n.kind != 2 {
+		return nil, os.ErrInvalid
+	}
+	return append([]byte{}, n.content...), nil
+}
+
+func vStat(name string) (os.FileInfo, error) {
+	_, dirPath, ok := vFollow(filepath.Dir(name))
+	if !ok {
+		return nil, os.ErrNotExist
+	}
+	n, _, ok := vFollow(filepath.Join(dirPath, filepath.Base(name)))
+	if !ok {
+		return nil, os.ErrNotExist
+	}
+	return vInfo{name: filepath.Base(name), kind: n.kind, size: int64(len(n.content))}, nil
+}
+
+func vLstat(name string) (os.FileInfo, error) {
+	n, ok := fs.nodes[name]
+	if !ok {
+		return nil, os.ErrNotExist
+	}
+	return vInfo{name: filepath.Base(name), kind: n.kind, size: int64(len(n.content))}, nil
+}
+
+func vMkdir(name string, perm os.FileMode) error {
+	fs.before()
+	if _, ok := fs.nodes[name]; ok {
+		return os.ErrExist
+	}
+	if !vParentIsDir(name) {
+		return os.ErrNotExist
+	}
+	fs.nodes[name] = &vNode{kind: 1}
 	vInvariant()
 	return nil
 }
